@@ -138,6 +138,16 @@ var c14Specials = []c14Special{
 		},
 	},
 	{
+		// The rewrite succeeds but, for some instances, what it prints is not
+		// valid Go (a composite literal in an if header): the file fails to
+		// reformat after it has been printed.
+		Label: "unparseable-result",
+		Text:  "@@\nvar x expression\n@@\n-c14chk(x)\n+if x {\n+\treturn\n+}\n",
+		Plants: []string{
+			"c14chk(c14T{} == c14v)", "c14chk(c14ok)", "c14chk(c14T{} == c14v)", "c14chk(len(c14s) > 0)",
+		},
+	},
+	{
 		// Two changes on the same code: the first elides a region with "...",
 		// the second deletes commented, multi-line code inside that region
 		// (what one change records about a file must not leak into the next).
